@@ -188,6 +188,18 @@ def plane_points(nazi):
                     y = sy + o * (dx * uy + dy * ux)
                     if fp.in_domain(x, y, -1e-12):
                         pts.append(('triangle_vertex', x, y))
+    # exactly on the coordinate axes (y or x exactly +0.0 / -0.0: the seam rays at azimuth 0 and 180 degrees and the generic axis at +-90)
+    # and exactly on the other eight seam rays as far as doubles allow, from 1e-15 to the domain limit
+    ladder = [10.0 ** -k for k in range(15, 0, -1)] + [0.2, 0.3, 0.45, 0.6, 0.75, 0.9, 1.0, 1.1, 1.2]
+    for t in ladder:
+        for x, y in ((t, 0.0), (t, -0.0), (-t, 0.0), (-t, -0.0), (0.0, t), (-0.0, t), (0.0, -t), (-0.0, -t)):
+            if fp.in_domain(x, y):
+                pts.append(('axis', x, y))
+        for j in range(1, 10):
+            if j != 5:
+                x, y = t * math.cos(j * fp.A36), t * math.sin(j * fp.A36)
+                if fp.in_domain(x, y):
+                    pts.append(('on_seam', x, y))
     # near the centre
     for o in [10.0 ** -k for k in range(15, 2, -1)]:
         for a in range(6):
